@@ -3,6 +3,9 @@ from orchestrate import Case
 import exprgen as X
 import psdec
 
+RULE_EXTRA = (" Also: a save that FAILS (every write refused from some point on), further summary changes and nothing else, then a save "
+              "that succeeds -- the reopened package shows the values last set (a case in which the container crate itself gives up "
+              "after the refused writes says nothing and is counted as inconclusive).")
 RULE = ("random sequences (6-16 steps) of the ten setters and clearers of SummaryInfo plus set_codepage, for all three package "
         "types; each history uses UTF-8 and one other of the 26 code pages, switching in any order (incl. back to UTF-8), with "
         "strings from that page's repertoire of every length class mod 4 (0-9 characters, multi-byte and single-byte); getters "
@@ -10,6 +13,7 @@ RULE = ("random sequences (6-16 steps) of the ten setters and clearers of Summar
         "the raw SummaryInformation stream of every saved file is parsed by an independent property-set parser "
         "(tools/psdec.py): header, FMTID, 4-aligned offsets pointing at typed values, no overlap, exact section size, values = "
         "getters.  non-trivial = at least one string set under a non-UTF-8 page; distinct = distinct command lists")
+RULE = RULE + RULE_EXTRA
 ASSUMPTIONS = ["strings are compared after save only when representable in the code page in force at save time (the property's "
                "own caveat); the generator draws strings from the repertoire of the history's page",
                "Python's codecs decode the sample repertoire strings like the Windows code pages (used only to compare the raw "
@@ -125,6 +129,16 @@ def gen_cases(rng, tier, info):
             cmds += ["(sum_set %s %s)" % (prop, X.enc_str(v)), "(sum_get)"]
         cmds += ["(reopen %s)" % ["flush", "into_inner", "drop"][k], "(raw)" if page in (65001, 20127) else "(x_raw)", "(sum_get)"]
         cases.append(Case("nul-%d" % page, cmds))
+    # a save that fails (every write refused from some point on), further summary edits and nothing else, then a save that
+    # succeeds: the reopened package shows the values last set
+    for k, (arm, first_save) in enumerate(((0, True), (0, False), (2, True), (3, True), (2, False), (6, True), (4, False), (9, True))):
+        cmds = ["(create %d)" % (k % 3), "(sum_set author %s)" % X.enc_str("Ann"), "(sum_set title %s)" % X.enc_str("First")]
+        if first_save:
+            cmds += ["(flush)", "(sum_set author %s)" % X.enc_str("Bob")]
+        cmds += ["(x_arm %d 1)" % arm, "(flush)", "(x_disarm)", "(sum_set codepage 1252)", "(sum_set author %s)" % X.enc_str("Zo\u00e9"),
+                 "(sum_set subject %s)" % X.enc_str("Caf\u00e9"), "(sum_clear title)", "(sum_set words 7)", "(sum_get)",
+                 "(reopen %s)" % ["flush", "into_inner", "drop"][k % 3], "(x_raw)", "(sum_get)"]
+        cases.append(Case("failed-save-%d" % k, cmds, ("impl_only", "failed-save")))
     cases += long_cases(tier)
     # the known finding: an architecture text containing ';'
     cases.append(Case("arch-semicolon", ["(create 0)", "(sum_set langs (1033))", "(sum_set arch %s)" % X.enc_str("x;y"), "(sum_get)"], ("known",)))
@@ -209,6 +223,7 @@ def check_raw(o, view):
 
 def oracle(ctx):
     bad = []
+    inconclusive = []
     for c, outs in zip(ctx.cases, ctx.impl_out):
         sh = None
         last_view = None
@@ -217,6 +232,11 @@ def oracle(ctx):
 
             def report(kind, what):
                 bad.append({"kind": kind, "what": what, "cmds": c.cmds[:i + 1], "impl": o[:300]})
+            if "failed-save" in c.tags and (o in ("panic", "abort", "timeout") or (sx[0] == "reopen" and o != "(ok ())")):
+                # how the container crate recovers from refused writes is the dependency's business (its allocator may
+                # give up): the case says nothing then.  What is judged is a save that SUCCEEDS after the failed one
+                inconclusive.append(c.name)
+                break
             if o in ("panic", "abort", "timeout"):
                 report("panic", "%s on %s" % (o, cmd))
                 break
@@ -254,4 +274,5 @@ def oracle(ctx):
                 last_view = got
         else:
             continue
+    ctx.extra_info = {"failed_save_cases_inconclusive": len(inconclusive)}
     return bad
